@@ -14,12 +14,21 @@
      WindingExact   - the directions in which some edge closes onto a cell other than source + multiplier
                       are exactly the periodic directions of the crystal (C17/C18: what
                       get_connected_directions reports after fix 4514eff)
-     OldHeuristicExact - the criterion as found (a node with incoming +e and -e edges) - violated: TLC
-                      exhibits a non-periodic direction that it flags (kept in Region_asfound.cfg) *)
+     OldHeuristicExact - the criterion as found (a node with incoming +e and -e edges) is exact on the ideal
+                      crystal as well ...
+     OldHeuristicSound - ... but with vacant sites it names a non-periodic direction: VIOLATED, TLC exhibits
+                      3x3x1 cells periodic in x and z with two vacancies (Region_asfound.cfg, refuted variant;
+                      this is the defect behind the C18 adsorbate findings, repaired by 4514eff / 94a4334)
+     WindingSound / WindingRankSound - the repaired criterion never names a non-periodic direction, at any time,
+                      with up to MaxVac vacant sites (Region_vac.cfg, Region_vac2d.cfg)
+   With vacancies Complete reads: the units hold exactly the atoms joined to the seed through occupied
+   neighbouring cells (a guess that finds no atom is queued with seed None and is never expanded). *)
 EXTENDS Integers, Sequences, FiniteSets, TLC, SequencesExt
 
 CONSTANTS Sizes,        \* set of <<sx, sy, sz>> to explore
-          Dim3          \* TRUE: 26 multipliers (3D prototype cell), FALSE: 8 in-plane multipliers (2D)
+          Dim3,         \* TRUE: 26 multipliers (3D prototype cell), FALSE: 8 in-plane multipliers (2D)
+          MaxVac        \* at most this many lattice sites are vacant (0: the ideal crystal)
+SmallCatalogue == {<<1,1,1>>, <<2,1,3>>, <<3,3,1>>, <<4,1,2>>, <<3,2,2>>, <<5,1,1>>}
 SizeCatalogue == {<<1,1,1>>, <<2,1,3>>, <<3,3,1>>, <<3,2,4>>, <<4,4,2>>, <<3,3,3>>, <<5,3,3>>}
 B == {TRUE, FALSE}
 NoAtom == <<>>
@@ -28,24 +37,30 @@ Mult3 == Tail([k \in 1..27 |-> << Digits[((k - 1) \div 9) + 1], Digits[(((k - 1)
 Mult2 == Tail([k \in 1..9 |-> << Digits[((k - 1) \div 3) + 1], Digits[((k - 1) % 3) + 1], 0 >>])
 Mults == IF Dim3 THEN Mult3 ELSE Mult2
 
-VARIABLES size, per, start, queue, searched, usedIdx, usedPts, cellOf, edges, units, overrides
-vars == <<size, per, start, queue, searched, usedIdx, usedPts, cellOf, edges, units, overrides>>
+VARIABLES size, per, start, vac, queue, searched, usedIdx, usedPts, cellOf, edges, units, overrides
+vars == <<size, per, start, vac, queue, searched, usedIdx, usedPts, cellOf, edges, units, overrides>>
 
 Add(a, b) == << a[1] + b[1], a[2] + b[2], a[3] + b[3] >>
 Sub(a, b) == << a[1] - b[1], a[2] - b[2], a[3] - b[3] >>
 \* grid point (unwrapped, relative to the start point) -> atom, or NoAtom outside the slab
 AtomAt(c) == LET p == Add(c, start) IN
   IF \E k \in 1..3 : ~per[k] /\ (p[k] < 0 \/ p[k] >= size[k]) THEN NoAtom
-  ELSE << IF per[1] THEN p[1] % size[1] ELSE p[1], IF per[2] THEN p[2] % size[2] ELSE p[2], IF per[3] THEN p[3] % size[3] ELSE p[3] >>
-AllAtoms == {<<x, y, z>> : x \in 0..(size[1] - 1), y \in 0..(size[2] - 1), z \in 0..(size[3] - 1)}
+  ELSE LET w == << IF per[1] THEN p[1] % size[1] ELSE p[1], IF per[2] THEN p[2] % size[2] ELSE p[2], IF per[3] THEN p[3] % size[3] ELSE p[3] >>
+       IN IF w \in vac THEN NoAtom ELSE w
+AllSites == {<<x, y, z>> : x \in 0..(size[1] - 1), y \in 0..(size[2] - 1), z \in 0..(size[3] - 1)}
+AllAtoms == AllSites \ vac
+SitesOf(sz) == {<<x, y, z>> : x \in 0..(sz[1] - 1), y \in 0..(sz[2] - 1), z \in 0..(sz[3] - 1)}
 CellOfDom == {p[1] : p \in cellOf}
 CellOfGet(a) == (CHOOSE p \in cellOf : p[1] = a)[2]
 CellOfSet(m, a, c) == {p \in m : p[1] # a} \cup {<<a, c>>}
 
+ASSUME MaxVac \in 0..2
+VacChoices(S) == {{}} \cup (IF MaxVac >= 1 THEN {{a} : a \in S} ELSE {}) \cup (IF MaxVac >= 2 THEN {{a, b} : a \in S, b \in S} ELSE {})
 Init == /\ size \in Sizes /\ per \in B \X B \X B
         /\ (~Dim3 => ~per[3])
         /\ start \in {<<0, 0, 0>>, << size[1] \div 2, 0, size[3] \div 2 >>}
-        /\ queue = << <<<<0, 0, 0>>, AtomAt(<<0, 0, 0>>)>> >>
+        /\ vac \in VacChoices(SitesOf(size) \ {start})
+        /\ queue = << <<<<0, 0, 0>>, start>> >>
         /\ searched = {} /\ usedIdx = {} /\ usedPts = {} /\ cellOf = {} /\ edges = {} /\ units = {} /\ overrides = 0
 
 \* the expansion loop of _find_new_seeds_and_cell folded over the admissible multipliers, in order
@@ -79,7 +94,7 @@ Visit ==
              /\ queue' = r.q /\ usedIdx' = r.used /\ cellOf' = r.cmap /\ edges' = r.es
              /\ overrides' = overrides + (IF c \in units THEN 1 ELSE 0)
              /\ units' = units \cup {c}
-  /\ UNCHANGED <<size, per, start>>
+  /\ UNCHANGED <<size, per, start, vac>>
 Next == Visit
 Spec == Init /\ [][Next]_vars
 
@@ -87,20 +102,33 @@ Done == queue = <<>>
 Periodic == {k \in 1..3 : per[k]}
 NoOverride == overrides = 0
 \* with in-plane multipliers only the layer of the seed can be reached
-Reachable == IF Dim3 THEN AllAtoms ELSE {a \in AllAtoms : a[3] = start[3]}
+\* ... and with vacancies only atoms joined to the seed by a chain of occupied neighbouring cells (a guess that
+\* finds no atom is queued with seed None and never expanded)
+WrapSite(p) == IF \E k \in 1..3 : ~per[k] /\ (p[k] < 0 \/ p[k] >= size[k]) THEN NoAtom
+               ELSE << IF per[1] THEN p[1] % size[1] ELSE p[1], IF per[2] THEN p[2] % size[2] ELSE p[2], IF per[3] THEN p[3] % size[3] ELSE p[3] >>
+NeighAtoms(a) == {WrapSite(Add(a, Mults[i])) : i \in 1..Len(Mults)} \cap AllAtoms
+RECURSIVE Closure(_)
+Closure(S) == LET T == S \cup UNION {NeighAtoms(a) : a \in S} IN IF T = S THEN S ELSE Closure(T)
+Reachable == Closure({start})
 Complete == Done => {AtomAt(c) : c \in units} \ {NoAtom} = Reachable
+\* the ideal crystal is covered entirely
+CompleteIdeal == (Done /\ vac = {}) => Reachable = (IF Dim3 THEN AllAtoms ELSE {a \in AllAtoms : a[3] = start[3]})
 EachAtomOnce == Done => \A c1, c2 \in units : (c1 # c2 /\ AtomAt(c1) # NoAtom) => AtomAt(c1) # AtomAt(c2)
 Winding(e) == Sub(Sub(e[2], e[1]), e[3])
 WindDirs == {k \in 1..3 : \E e \in edges : Winding(e)[k] # 0}
 \* with 2D multipliers the third axis is never searched
 Searchable == IF Dim3 THEN Periodic ELSE Periodic \ {3}
-WindingExact == Done => WindDirs = Searchable
+WindingExact == (Done /\ vac = {}) => WindDirs = Searchable
+\* never a direction the structure is not periodic in, at any time and whatever is missing
+WindingSound == WindDirs \subseteq Searchable
 Unit(k) == << IF k = 1 THEN 1 ELSE 0, IF k = 2 THEN 1 ELSE 0, IF k = 3 THEN 1 ELSE 0 >>
 Neg(v) == << -v[1], -v[2], -v[3] >>
 OldDirs == {k \in 1..3 : \E node \in {e[2] : e \in edges} :
                /\ \E e \in edges : e[2] = node /\ e[3] = Unit(k)
                /\ \E e \in edges : e[2] = node /\ e[3] = Neg(Unit(k))}
-OldHeuristicExact == Done => OldDirs = Searchable
+OldHeuristicExact == (Done /\ vac = {}) => OldDirs = Searchable
+OldHeuristicSound == OldDirs \subseteq Searchable
+OldHeuristicComplete == Done => Searchable \subseteq OldDirs
 \* rank of the winding lattice = number of independent directions in which the region closes on itself
 \* (basis independent, unlike the per-axis flags): 0..3
 Cross(a, b) == << a[2]*b[3] - a[3]*b[2], a[3]*b[1] - a[1]*b[3], a[1]*b[2] - a[2]*b[1] >>
@@ -112,7 +140,8 @@ WindRank == IF WindVecs = {} THEN 0
                  IF \A b \in WindVecs : Cross(a, b) = Zero3 THEN 1
                  ELSE LET b == CHOOSE x \in WindVecs : Cross(a, x) # Zero3 IN
                       IF \A c \in WindVecs : Dot(Cross(a, b), c) = 0 THEN 2 ELSE 3
-WindingRankExact == Done => WindRank = Cardinality(Searchable)
+WindingRankExact == (Done /\ vac = {}) => WindRank = Cardinality(Searchable)
+WindingRankSound == WindRank <= Cardinality(Searchable)
 \* the walk is finite: at most (atoms + boundary guesses) cells are ever searched
-Bounded == Cardinality(searched) <= 27 * Cardinality(AllAtoms) + 27
+Bounded == Cardinality(searched) <= 27 * Cardinality(AllSites) + 27
 =============================================================================
